@@ -154,3 +154,30 @@ Section Tables.
     | None => None
     end.
 End Tables.
+
+(* the same constants and tables under another build configuration
+   (HBS_LMS_MAX_ALLOWED_HSS_LEVELS / HBS_LMS_TREE_HEIGHTS / HBS_LMS_WINTERNITZ_PARAMETERS) *)
+Definition with_cfg (K : consts) (levels : nat) (heights ws : list N) : consts :=
+  {| c_ilen := c_ilen K; c_max_seed_len := c_max_seed_len K; c_max_hash_size := c_max_hash_size K;
+     c_max_hash_block_size := c_max_hash_block_size K;
+     c_d_pblc := c_d_pblc K; c_d_mesg := c_d_mesg K; c_d_leaf := c_d_leaf K; c_d_intr := c_d_intr K;
+     c_topseed_seed := c_topseed_seed K; c_topseed_len := c_topseed_len K; c_topseed_d := c_topseed_d K;
+     c_topseed_which := c_topseed_which K; c_d_topseed := c_d_topseed K;
+     c_prng_i := c_prng_i K; c_prng_q := c_prng_q K; c_prng_j := c_prng_j K; c_prng_ff := c_prng_ff K;
+     c_prng_seed := c_prng_seed K; c_prng_len_base := c_prng_len_base K;
+     c_seed_child_seed := c_seed_child_seed K; c_seed_randomizer_seed := c_seed_randomizer_seed K;
+     c_used_leafs_size := c_used_leafs_size K; c_ref_levels := c_ref_levels K;
+     c_chain_counts := c_chain_counts K; c_chain_w_index := c_chain_w_index K;
+     c_chain_n_index := c_chain_n_index K; c_chain_stride := c_chain_stride K;
+     c_min_subtree := c_min_subtree K; c_daux_d := c_daux_d K; c_daux_prefix_len := c_daux_prefix_len K;
+     c_d_daux := c_d_daux K;
+     c_iter_i := c_iter_i K; c_iter_q := c_iter_q K; c_iter_k := c_iter_k K; c_iter_j := c_iter_j K;
+     c_iter_prev := c_iter_prev K;
+     c_ots_from_u32 := c_ots_from_u32 K; c_ots_get_from_type := c_ots_get_from_type K;
+     c_ots_construct := c_ots_construct K;
+     c_lms_from_u32 := c_lms_from_u32 K; c_lms_get_from_type := c_lms_get_from_type K;
+     c_lms_construct := c_lms_construct K;
+     c_param_set_end := c_param_set_end K;
+     c_aux_data_marker := c_aux_data_marker K; c_no_aux_data := c_no_aux_data K;
+     c_aux_data_hashes := c_aux_data_hashes K; c_ipad := c_ipad K; c_opad := c_opad K;
+     c_max_levels := levels; c_tree_heights := heights; c_wparams := ws |}.
